@@ -153,7 +153,8 @@ func ruleFuncValuesOfCorrectType(observers *Events, addError AddErrFunc, disable
 							return
 						}
 
-						isVariable := fieldValue.Kind == ast.Variable
+						// an undefined variable is reported by NoUndefinedVariables
+						isVariable := fieldValue.Kind == ast.Variable && fieldValue.VariableDefinition != nil
 						if isVariable {
 							variableName := fieldValue.VariableDefinition.Variable
 							isNullableVariable := !fieldValue.VariableDefinition.Type.NonNull
